@@ -385,7 +385,7 @@ def strat_marg3d(tier):
 
 
 PARTS = [
-    Part("pdf", check_pdf, strat_pdf, quick=4000, thorough=100000, min_nontrivial_frac=0.4),
+    Part("pdf", check_pdf, strat_pdf, quick=4000, thorough=100000, min_nontrivial_frac=0.3),
     Part("norm", check_norm, strat_norm, quick=200, thorough=3000, shrink_quick=False),
     Part("cdf2d", check_cdf, strat_cdf2, quick=32, thorough=960, shrink=False, min_per_shard=1),
     Part("cdf3d", check_cdf, strat_cdf3, quick=0, thorough=16, shrink=False, min_per_shard=1),
